@@ -94,7 +94,16 @@ def rules(ck, P):
         okc = False
         if len(oc) == 1:
             a0, a1, a2 = oc[0]["a"]
-            okc = ir.place_str(a0) == "result.blob" and ir.place_str(a1) == "result.compression" and ir.place_str(a2) == "target_compressions"
+            ps_ = [x for p_ in b["params"] for x in ir.pat_binds(p_)]
+            rp_ = [x for x in ps_ if x["t"].endswith("SourceResponse")]
+            tp_ = [x for x in ps_ if x["t"].endswith("TargetCompression")]
+
+            def fld_of(e, name):
+                e = ir.strip(e)
+                while e is not None and e.get("k") == "ref":
+                    e = ir.strip(e["e"])
+                return e is not None and e.get("k") == "field" and e.get("name") == name and rp_ and ir.local_hid(e["e"]) == rp_[0]["hid"]
+            okc = fld_of(a0, "blob") and fld_of(a1, "compression") and bool(tp_) and ir.local_hid(a2) == tp_[0]["hid"]
         ck.check(okc, "R-CE-TABLE", b["q"] + "|inputs", "optimize_compression(result.blob, result.compression, target_compressions)",
                  "optimize_compression is not called with the response's own blob/compression and the negotiated target", ir.loc(b))
         # the body and the Content-Encoding tag are, on every path, the pair returned by that call
@@ -117,7 +126,7 @@ def rules(ck, P):
         ck.check(okp, "R-CE-TABLE", b["q"] + "|result-used", "on every path the response body and the Content-Encoding tag are the pair returned by optimize_compression",
                  "some path builds the response without optimize_compression's result (%s): the stored encoding can be sent to a client that did not list it" % whyp, ir.loc(b))
         ct = [x for x in ir.walk_nodes(b["body"]) if x.get("k") == "mcall" and x.get("name") == "header" and ir.place_str(x["a"][0]).endswith("CONTENT_TYPE")]
-        ck.check(len(ct) == 1 and ir.place_str(ct[0]["a"][1]) == "result.mime", "R-CE-TABLE", b["q"] + "|content-type", "Content-Type is the response's mime", "Content-Type is not result.mime", ir.loc(b))
+        ck.check(len(ct) == 1 and len(oc) == 1 and fld_of(ct[0]["a"][1], "mime"), "R-CE-TABLE", b["q"] + "|content-type", "Content-Type is the response's mime", "Content-Type is not result.mime", ir.loc(b))
         st = [ir.const_eval(x["a"][0], {}) for x in ir.walk_nodes(b["body"]) if x.get("k") == "mcall" and x.get("name") == "status"]
         ck.check(st == [200], "R-STATUS", b["q"] + "|200", "ok_data answers 200", "ok_data status is %s" % st, ir.loc(b))
         # get_encoding
@@ -177,7 +186,9 @@ def rules(ck, P):
                 hs_ = {ir.local_hid(y) for y in ir.walk_nodes(e) if y.get("k") == "path" and y.get("r") == "local"}
                 return hs_
             f = {x["name"]: root(x["e"]) for x in st[0]["fields"]}
-            okn = f.get("blob") == {ps.get("blob")} and f.get("compression") == {ps.get("compression")} and f.get("mime") == {ps.get("mime")}
+            pl_ = [x for p_ in nb["params"] for x in ir.pat_binds(p_)]
+            by_t = {"blob": [x["hid"] for x in pl_ if x["t"].endswith("Blob")], "compression": [x["hid"] for x in pl_ if "TileCompression" in x["t"]], "mime": [x["hid"] for x in pl_ if x["t"] in ("&str", "std::string::String", "&std::string::String")]}
+            okn = all(len(v) == 1 for v in by_t.values()) and f.get("blob") == set(by_t["blob"]) and f.get("compression") == set(by_t["compression"]) and f.get("mime") == set(by_t["mime"])
         ck.check(okn, "R-CE-TABLE", nb["q"], "SourceResponse::new_some stores blob, compression and mime from its own parameters", "SourceResponse::new_some crosses or drops a parameter", ir.loc(nb))
 
     # ---------------- R-STATUS
